@@ -15,6 +15,10 @@ WTARGET = os.path.join(R.CACHE, 'witness-target')
 
 # (unit regex, fn regex) -> witness cases to try, in order
 CASES = [
+    (r'bfv\.copy.*', r'.*', ['bfv_copy']),
+    (r'bfv\.unaligned.*', r'.*', ['bfv_unaligned']),
+    (r'bfv\.apply.*', r'.*', ['bfv_apply']),
+    (r'bfv\..*', r'.*', ['bfv_ops', 'bfv_copy']),
     (r'bitvec\.iter', r'.*', ['bitvec_iter_ones', 'bitvec_iter_zeros', 'bitvec_ops']),
     (r'bitvec\.core', r'(count_ones|eq|fill|flip|reset)', ['bitvec_stale', 'bitvec_ops']),
     (r'bitvec\.core', r'.*', ['bitvec_ops', 'bitvec_stale']),
